@@ -168,6 +168,30 @@ def exT2c : Txn := { exT2a with nonce := 7 }
 example : (run true exS2' [(exT2a, .ok [.put 2 22] [] []), (exT2b, .chargeable [.put 2 99, .del 1] [] []),
     (exT2c, .ok [.put 5 55] [] [])]).store = [(1, 11), (2, 22), (5, 55)] := by decide
 
+/-- forget what a failing call had attempted. -/
+def scrub : CResult → CResult
+  | .chargeable _ _ _ => .chargeable [] [] []
+  | r => r
+
+theorem step_scrub (feeOn : Bool) (s : St) (t : Txn) (r : CResult) :
+    step feeOn s t (scrub r) = step feeOn s t r := by
+  cases r with
+  | chargeable w tr sg => exact chargeable_attempts_irrelevant feeOn s t [] w [] tr [] sg
+  | internal => rfl
+  | ok ws tr sg => rfl
+
+/-- **attempts_irrelevant_history**: two histories that differ only in what their failing calls had attempted
+(writes, transfers, signed transfers, in any amount) end in the same state. -/
+theorem attempts_irrelevant_history (feeOn : Bool) (hist : List (Txn × CResult)) : ∀ s : St,
+    run feeOn s (hist.map (fun x => (x.1, scrub x.2))) = run feeOn s hist := by
+  induction hist with
+  | nil => intro s; rfl
+  | cons x rest ih =>
+    intro s
+    obtain ⟨t, r⟩ := x
+    show run feeOn (step feeOn s t (scrub r)).1 (rest.map _) = run feeOn (step feeOn s t r).1 rest
+    rw [step_scrub]; exact ih _
+
 -- non-vacuity: a failing call that had attempted a write and a transfer is applied with status `failed`
 def exS2 : St := { accts := [(3, ⟨1000, 4⟩), (7, ⟨5000, 0⟩)], store := [(1, 11)] }
 def exT2 : Txn := { sender := 3, to := 7, toValid := true, value := 100, fee := 10, nonce := 5, typ := .sc }
